@@ -281,6 +281,7 @@ mod verif_nx_pipeline {
             "IF Aaaaaaa THEN Bbbbbbbbbb(Cccccccc, Dddddddd) ELSE Eeeeeeee; ///x",
         ];
         let mut n = 0u64;
+        let mut idem_fail: Option<String> = None;
         for crlf in [false, true] {
             let wide = leak(config(false, 2, 2, crlf, 200, false));
             for s1 in stmts { for s2 in stmts {
@@ -296,7 +297,10 @@ mod verif_nx_pipeline {
                     }
                     // C03 / C08 on results that went through the second wrapping pass (re-indented strings)
                     let (again, _) = fmt(narrow, &o, Vec::new());
-                    assert!(again == o, "OB pipeline/idempotent: formatting the formatter's own output changes nothing\n input={:?} limit={} crlf={}\n first={:?}\n second={:?}", p, limit, crlf, o, again);
+                    if again != o && idem_fail.is_none() {
+                        // reported after the enumeration, so that a clause of C11 that fails anywhere is reached first
+                        idem_fail = Some(format!("OB pipeline/idempotent: formatting the formatter's own output changes nothing\n input={:?} limit={} crlf={}\n first={:?}\n second={:?}", p, limit, crlf, o, again));
+                    }
                     let mut in_string = false;
                     for line in o.split(nl) {
                         let quotes = line.matches("'''").count();
@@ -316,6 +320,9 @@ mod verif_nx_pipeline {
             }}
         }
         println!("NX pipeline_wrap_limit: {} cases", n);
+        if let Some(m) = idem_fail {
+            panic!("{}", m);
+        }
         assert!(n > 1_000, "enumeration ran");
     }
 
@@ -433,10 +440,12 @@ mod verif_nx_pipeline {
                 texts.push(format!("procedure P;\nbegin\n  A := procedure\n    begin\n      B := {lit}\n      Foo;\n    end;\nend;"));
             }
         }
+        // a literal that belongs to two logical lines (one per conditional-compilation branch; both branches well-formed)
+        texts.push("procedure Foo;\nbegin\n{$ifdef A}\n  X := Foo(\n{$else}\n  if Y then Xyzzzzzzzz := Bazzzzzzzzzzz(\n{$endif}\n  '''\na\n''');\nend;\n".to_string());
         let mut n = 0u64;
         let mut agg: std::collections::BTreeMap<String, Vec<u32>> = std::collections::BTreeMap::new();
         for p in &texts {
-            for limit in 20..=80u32 {
+            for limit in (20..=80u32).chain([120]) {
                 let cfg = leak(config(false, 2, 2, false, limit, false));
                 let (o, _) = fmt(cfg, p, Vec::new());
                 let (again, _) = fmt(cfg, &o, Vec::new());
@@ -931,5 +940,183 @@ mod verif_nx_pipeline {
         }
         println!("NX pipeline_relayout: {} cases", n);
         assert!(n > 10_000, "enumeration ran");
+    }
+
+    // C08 / C10 for settings whose product exceeds a byte: every line's indentation stays a whole number of units
+    // (the domain of the defect repaired by 8bdd30b: the continuation width used to saturate at 255 columns)
+    #[test]
+    fn verif_nx_pipeline_wide_units() {
+        let inputs = [
+            "begin\n  a := foo(bbbbbbbbbbbbbbbbbbbbbbbbb, cccccccccccccccccccccccc);\nend;\n",
+            "procedure P;\nbegin\n  if aaaaaaaaaaaaaaaaaa and bbbbbbbbbbbbbbbbbbbbb then\n    ccccccccccccccc(ddddddddddddd, eeeeeeeeeeeee, fffffffffffff);\nend;\n",
+        ];
+        let mut n = 0u64;
+        let mut deep = 0u64;
+        for &(tw, ci) in &[(100u8, 3u8), (128, 2), (16, 16), (17, 16), (64, 4), (85, 4), (3, 100), (255, 2), (255, 255), (1, 255), (2, 2)] {
+            for use_tabs in [false, true] {
+                let cfg = leak(config(use_tabs, tw, ci, false, 30, false));
+                for p in inputs {
+                    let (out, _) = fmt(cfg, p, Vec::new());
+                    n += 1;
+                    for line in out.split('\n') {
+                        if use_tabs {
+                            let tabs = line.len() - line.trim_start_matches('\t').len();
+                            assert!(!line[tabs..].starts_with(' '), "OB pipeline/indent_unit: indentation is a whole number of indentation units (tabs only when use_tabs is set)\n tab_width={} continuation_indents={} input={:?} line={:?}", tw, ci, p, &line[..line.len().min(40)]);
+                            if tabs > ci as usize { deep += 1; }
+                        } else {
+                            let indent = line.len() - line.trim_start_matches(' ').len();
+                            assert!(indent % tw as usize == 0 && !line.trim_start_matches(' ').starts_with('\t'), "OB pipeline/indent_unit: indentation is a whole number of indentation units (a multiple of tab_width)\n tab_width={} continuation_indents={} indentation={} input={:?}", tw, ci, indent, p);
+                            if indent > tw as usize * ci as usize { deep += 1; }
+                        }
+                    }
+                    let (again, _) = fmt(cfg, &out, Vec::new());
+                    assert!(again == out, "OB pipeline/idempotent: formatting the formatter's own output changes nothing\n tab_width={} continuation_indents={} input={:?}", tw, ci, p);
+                }
+            }
+        }
+        assert!(n == 44 && deep > 20, "vacuity guard: {} runs, {} lines deeper than one continuation", n, deep);
+        println!("NX verif_nx_pipeline_wide_units: {} cases", n);
+    }
+
+    // C04 / C01 / C08 at the edges of the 16-bit counters the pipeline keeps per token (line breaks and blanks in front of a
+    // token): runs of 65 535, 65 536, 65 537 and 70 000 line breaks / blanks between two statements, in front of the end of the
+    // text, and inside a verbatim region.
+    #[test]
+    fn verif_nx_pipeline_counter_boundaries() {
+        let cfg = leak(config(false, 2, 2, false, 120, false));
+        let crlf = leak(config(false, 2, 2, true, 120, false));
+        let mut n = 0u64;
+        for unit in ["\n", "\r\n", " ", "\t", "\r", "\n "] {
+            for count in [65_535usize, 65_536, 65_537, 70_000] {
+                let run = unit.repeat(count);
+                for (k, text) in [format!("a;{}b;\n", run), format!("a;\nb;{}", run), format!("a;\n// pasfmt off\nb;{}c;\n// pasfmt on\nd;\n", run), format!("{}a;\n", run)].into_iter().enumerate() {
+                    for c in [cfg, crlf] {
+                        let (out, _) = fmt(c, &text, vec![0, 3, (count / 2) as u32, (count + 4) as u32]);
+                        assert!(nb(&out) == nb(&text), "OB pipeline/non_blank_preserved: the output has the same non-blank characters in the same order\n input=\"shape {} with {} x {:?}\"", k, count, unit);
+                        if k != 2 {
+                            assert!(!out.replace("\r\n", "\n").contains("\n\n\n") && out.len() < 40, "OB pipeline/one_blank_line_at_most: never two consecutive blank lines\n input=\"shape {} with {} x {:?}\" output={:?}", k, count, unit, &out[..out.len().min(60)]);
+                        }
+                        n += 1;
+                    }
+                }
+            }
+        }
+        println!("NX pipeline_counter_boundaries: {} cases", n);
+        assert!(n == 192, "enumeration ran");
+    }
+
+    // C04 "never aborts" for deeply nested input.  A stack overflow cannot be caught inside the process, so every case runs in
+    // a child process (this test binary re-executed on this one test with VERIF_NX_DEEP_CHILD set; the child formats on a
+    // thread with the 8 MiB stack of a main thread).  All failing cases are collected (see known_findings.json).
+    #[test]
+    fn verif_nx_pipeline_deep_nesting() {
+        const CASES: [(&str, &str, &str, usize); 6] = [
+            ("begin", "begin\n", "", 1_000), ("begin", "begin\n", "", 5_000), ("begin", "begin\n", "", 20_000),
+            ("ifdef", "{$ifdef A}\n", "", 1_000), ("ifdef", "{$ifdef A}\n", "", 20_000), ("paren", "x := ", "(", 3_000),
+        ];
+        if let Ok(which) = std::env::var("VERIF_NX_DEEP_CHILD") {
+            let k: usize = which.parse().unwrap();
+            let (_, unit, unit2, count) = CASES[k];
+            let text = if unit2.is_empty() { unit.repeat(count) } else { format!("{}{}", unit, unit2.repeat(count)) };
+            let h = std::thread::Builder::new().stack_size(8 << 20).spawn(move || {
+                let cfg = leak(config(false, 2, 2, false, 120, false));
+                let f = make_formatter(cfg);
+                let out = f.format(&text, FileOptions::new());
+                assert!(nb(&out) == nb(&text));
+            }).unwrap();
+            std::process::exit(if h.join().is_ok() { 0 } else { 3 });
+        }
+        let exe = std::env::current_exe().unwrap();
+        let mut failing: Vec<String> = Vec::new();
+        let mut n = 0;
+        for (k, (name, _, _, count)) in CASES.iter().enumerate() {
+            let mut child = std::process::Command::new(&exe)
+                .args(["verif_nx_pipeline_deep_nesting", "--test-threads", "1"])
+                .env("VERIF_NX_DEEP_CHILD", k.to_string())
+                .stdout(std::process::Stdio::null()).stderr(std::process::Stdio::null())
+                .spawn().unwrap();
+            let t0 = std::time::Instant::now();
+            let status = loop {
+                if let Some(st) = child.try_wait().unwrap() { break Some(st); }
+                if t0.elapsed().as_secs() > 120 { let _ = child.kill(); let _ = child.wait(); break None; }
+                std::thread::sleep(std::time::Duration::from_millis(20));
+            };
+            n += 1;
+            match status {
+                Some(st) if st.success() => {}
+                Some(st) => failing.push(format!("case=aborts({}) input=\"{} nested {} times\"", st, name, count)),
+                None => failing.push(format!("case=no_result_in_120s input=\"{} nested {} times\"", name, count)),
+            }
+        }
+        println!("NX pipeline_deep_nesting: {} cases", n);
+        assert!(n == 6, "enumeration ran");
+        assert!(failing.is_empty(), "OB pipeline/deep_nesting_returns: formatting returns an output for every input, however deeply nested (no abort, no hang)\n{}", failing.join("\n"));
+    }
+
+    // C05 with a comment between a controlling line and its nested statement: the nested statement still starts its own
+    // line one level deeper than the line that controls it, and a block closer is first on its line.
+    #[test]
+    fn verif_nx_pipeline_structure_comments() {
+        let heads = ["if A then", "while B do", "for I := 0 to 9 do", "with R do"];
+        let notes = ["", "{ note } ", "(* note *) ", "{$ifdef X} {$endif} "];
+        let mut n = 0u64;
+        for always_wrap in [false, true] {
+            let cfg = leak(config(false, 2, 2, false, 120, always_wrap));
+            for head in heads {
+                for note in notes {
+                    let sources = [
+                        format!("procedure Foo;\nbegin\n  case X of\n    1: {note}{head} Bar;\n    2: Baz;\n  end;\nend;\n"),
+                        format!("procedure Foo;\nbegin\n  Run(procedure begin {note}{head} Bar; end);\nend;\n"),
+                        format!("procedure Foo;\nbegin\n  X := function: Integer begin {note}{head} Bar; end;\nend;\n"),
+                        format!("procedure Foo;\nbegin {note}{head} Bar;\nend;\n"),
+                        format!("procedure Foo;\nbegin\n  if Q then {note}{head} Bar;\nend;\n"),
+                        format!("procedure Foo;\nbegin\n  try {note}{head} Bar; finally Baz; end;\nend;\n"),
+                        format!("procedure Foo;\nbegin\n  repeat {note}{head} Bar; until Z;\nend;\n"),
+                    ];
+                    for src in sources {
+                        let (out, _) = fmt(cfg, &src, Vec::new());
+                        let indent = |l: &str| l.len() - l.trim_start_matches(' ').len();
+                        let ctrl = out.lines().find(|l| l.contains(head)).map(indent);
+                        let stmt = out.lines().find(|l| l.trim_start().starts_with("Bar;")).map(indent);
+                        assert!(ctrl.is_some() && stmt == ctrl.map(|c| c + 2), "OB pipeline/block_structure: every statement starts its own line one level deeper than the line that controls it - also with a comment or directive in between\n input={:?}\n output=\n{}", src, out);
+                        for l in out.lines() {
+                            let t = l.trim_start();
+                            let has_end = t.split(|c: char| !c.is_ascii_alphanumeric() && c != '_').any(|w| w.eq_ignore_ascii_case("end"));
+                            assert!(!has_end || t.to_ascii_lowercase().starts_with("end"), "OB pipeline/block_structure: a block closer is first on its line\n input={:?}\n output=\n{}", src, out);
+                        }
+                        n += 1;
+                    }
+                }
+            }
+        }
+        println!("NX pipeline_structure_comments: {} cases", n);
+        assert!(n == 224, "enumeration ran");
+    }
+
+    // C09 for multi-line strings that are NOT rewritten (mis-indented, or format_multiline_strings off) with code after the
+    // closing quotes: the crlf result is the lf result with the emitted terminators substituted (the untouched interior of the
+    // literal keeps its own line breaks in both), at every wrap_column around the point where that code has to wrap.
+    #[test]
+    fn verif_nx_pipeline_crlf_untouched_strings() {
+        let tails = [".format(Aaaaaaaaaa, Bbbbbbbbbb, Cccccccccc);", ".Replace(aa, b);", " + Yyyyyyyy + Zzzzzzz.W(1, 2);"];
+        let lits = ["'''\nabc\n    '''", "'''\n  abc\n  '''", "'''\n      abc\n      def\n      '''"];
+        let mut n = 0u64;
+        let mut wrapped = 0u64;
+        for fms in [false, true] { for lit in lits { for tail in tails { for limit in 24..=90u32 {
+            let p = format!("procedure P;\nbegin\n  S := {lit}{tail}\nend;\n");
+            let lf = leak(FormattingConfig { format_multiline_strings: fms, ..config(false, 2, 2, false, limit, false) });
+            let crlf = leak(FormattingConfig { format_multiline_strings: fms, ..config(false, 2, 2, true, limit, false) });
+            let (a, _) = fmt(lf, &p, Vec::new());
+            let (b, _) = fmt(crlf, &p, Vec::new());
+            assert!(b.replace("\r\n", "\n") == a, "OB pipeline/crlf_is_lf_substituted: line_ending=crlf gives the lf result with each terminator substituted - also around a multi-line string that is left untouched\n input={:?} limit={} format_multiline_strings={}\n lf={:?}\n crlf={:?}", p, limit, fms, a, b);
+            let (c, _) = fmt(lf, &p.replace('\n', "\r\n"), Vec::new());
+            if fms && lit.starts_with("'''\n  ") {
+                assert!(c == a, "OB pipeline/input_endings_do_not_matter: CRLF input gives the same output as LF input (no line-spanning token kept verbatim)\n input={:?} limit={}\n lf={:?}\n from_crlf={:?}", p, limit, a, c);
+            }
+            if a.lines().count() > p.lines().count() { wrapped += 1; }
+            n += 1;
+        }}}}
+        println!("NX pipeline_crlf_untouched_strings: {} cases", n);
+        assert!(n == 1206 && wrapped > 100, "enumeration ran: {} cases, {} wrapped", n, wrapped);
     }
 }
